@@ -42,7 +42,7 @@ pub fn random_lists(rng: &mut Rng, n: u32, how_many: usize) -> Vec<Vec<i32>> {
     out
 }
 
-fn space_cfg(a: &Args, heavy: bool) -> SpaceCfg {
+pub fn space_cfg(a: &Args, heavy: bool) -> SpaceCfg {
     if a.thorough() {
         SpaceCfg { g1_max_n: 3, g1_rate: if heavy { 0.3 } else { 1.0 }, random_d4: if heavy { 1500 } else { 4000 }, random_c2d: if heavy { 700 } else { 2000 }, min_n: 2, max_n: 9 }
     } else {
@@ -91,7 +91,8 @@ pub fn c01(a: &Args) {
     });
     lexical_variants(a, &mut out, &mut rng);
     corpus_c01(a, &mut out);
-    out.finish("G1: every satisfiable function over 1..3 features x every order x {d4 tree, d4 shared, d4 shared+f-edges, c2d tree, c2d shared} (sampled in quick tier), G3: random well-formed d4 / c2d circuits (n<=9); a case is non-trivial when the function is neither constant true nor has <3 lines; distinct by file text; lexical variants: the raw lines of generated files with blanks doubled / turned into tabs, leading zeros, dropped or doubled terminators, trailing blanks and junk, signs: the real loader (array or panic) vs the character-level lexer models + loader model");
+    crate::cli_props::cli_pass(a, &mut out, &mut rng, &["count"]);
+    out.finish("(+ CLI pass: the rebuilt binary's `count` on a sample of the models, judged by the same oracles) G1: every satisfiable function over 1..3 features x every order x {d4 tree, d4 shared, d4 shared+f-edges, c2d tree, c2d shared} (sampled in quick tier), G3: random well-formed d4 / c2d circuits (n<=9); a case is non-trivial when the function is neither constant true nor has <3 lines; distinct by file text; lexical variants: the raw lines of generated files with blanks doubled / turned into tabs, leading zeros, dropped or doubled terminators, trailing blanks and junk, signs: the real loader (array or panic) vs the character-level lexer models + loader model");
 }
 
 /// the same files, but the text is not in the writer's normal form: the real lexers + loader against the
@@ -363,7 +364,8 @@ pub fn c03(a: &Args) {
             if small { out.query("sat", &fmt_ints(&l), &s.to_string()); }
         }
     }
-    out.finish("same lists as C02; sat, sat_immutable, stream sat vs truth table; incremental sat_propagate with a kept mark vector on random chunkings (compared while earlier answers are 'satisfiable'); corpus: sat vs count>0 on every literal and random lists");
+    crate::cli_props::cli_pass(a, &mut out, &mut rng, &["sat"]);
+    out.finish("(+ CLI pass: the rebuilt binary's `sat` on a sample of the models, judged by the same oracles) same lists as C02; sat, sat_immutable, stream sat vs truth table; incremental sat_propagate with a kept mark vector on random chunkings (compared while earlier answers are 'satisfiable'); corpus: sat vs count>0 on every literal and random lists");
 }
 
 // ------------------------------------------------------------------------------------------------
@@ -461,7 +463,8 @@ pub fn c04(a: &Args) {
             out.query("cardpd", "", &rows.iter().map(|r| r.1.to_string()).collect::<Vec<_>>().join(" "));
         }
     }
-    out.finish("every model of the C01 space: per-feature table vs truth table (cardinality per feature, row order, ratio within 1e-12 of card/total), equality with the single-literal count; corpus: table vs execute_query([f]) and CSV rows; non-trivial = non-constant function; distinct by file text");
+    crate::cli_props::cli_pass(a, &mut out, &mut rng, &["count-features"]);
+    out.finish("(+ CLI pass: the rebuilt binary's `count-features` on a sample of the models, judged by the same oracles) every model of the C01 space: per-feature table vs truth table (cardinality per feature, row order, ratio within 1e-12 of card/total), equality with the single-literal count; corpus: table vs execute_query([f]) and CSV rows; non-trivial = non-constant function; distinct by file text");
 }
 
 // ------------------------------------------------------------------------------------------------
@@ -553,5 +556,6 @@ pub fn c05(a: &Args) {
             out.query("core", "", &fmt_ints(&c));
         }
     }
-    out.finish("every model of the C01 space x assumption lists of length 0..3 (all of length<=2 for n<=5, sampled length 3) x every candidate literal: get_core, core_dead/core/dead_with_assumptions, stream core (plain and per-candidate) vs truth table; corpus: core literal iff count of its complement is 0");
+    crate::cli_props::cli_pass(a, &mut out, &mut rng, &["core", "anomalies"]);
+    out.finish("(+ CLI pass: the rebuilt binary's `core / anomalies` on a sample of the models, judged by the same oracles) every model of the C01 space x assumption lists of length 0..3 (all of length<=2 for n<=5, sampled length 3) x every candidate literal: get_core, core_dead/core/dead_with_assumptions, stream core (plain and per-candidate) vs truth table; corpus: core literal iff count of its complement is 0");
 }
